@@ -57,6 +57,7 @@ def main():
     dirs = ["selftest/mutants", "seeded"]
     seed = os.environ.get("VERIF_SEED", "1")
     check_tests = False
+    skip_done = False
     i = 0
     while i < len(args):
         if args[i] == "--tier":
@@ -69,6 +70,8 @@ def main():
             dirs = args[i + 1].split(","); i += 2
         elif args[i] == "--check-tests":
             check_tests = True; i += 1
+        elif args[i] == "--skip-done":
+            skip_done = True; i += 1
         else:
             i += 1
     muts = load_mutants(dirs)
@@ -84,6 +87,9 @@ def main():
             results = {}
     for m in muts:
         props = [p for p in m["props"] if not props_filter or p in props_filter]
+        if skip_done:
+            done = results.get(m["name"], {}).get("results", {}) if isinstance(results.get(m["name"]), dict) else {}
+            props = [p for p in props if p not in done]
         if not props:
             continue
         tree = base + "-" + re.sub(r"[^A-Za-z0-9]+", "_", m["name"])
